@@ -10,8 +10,9 @@
 
     Cell.overlap            cell_t::overlap(o, size): `!m_removed && !(x & y).is_bottom()`
     getCell                 offset_map_t::get_cell
-    mkCell revive           offset_map_t::mk_cell; `revive = false` is the code as it is (an
-                            existing cell is returned even if it is marked as removed)
+    mkCell                  offset_map_t::mk_cell (a cell marked as removed is revived);
+    mkCellOld               mk_cell before the repair (an existing cell is returned even if it
+                            is marked as removed), kept for the counterexample only
     shouldKill / kill       get_overlap_cells(o, size) followed by kill_cells: every cell that
                             overlaps with [o, o+size) except the cell (o, size) itself is erased
                             (`array_adaptive.is_smashable = false`) or marked as removed (true).
@@ -49,10 +50,16 @@ def getCell (om : OMap) (o : Int) (sz : Nat) : Option Cell := om.find? (fun c =>
 def eraseCell (om : OMap) (o : Int) (sz : Nat) : OMap := om.filter (fun c => !c.hasKey o sz)
 
 /-- `offset_map_t::mk_cell(o, size)` -/
-def mkCell (revive : Bool) (om : OMap) (o : Int) (sz : Nat) : OMap :=
+def mkCell (om : OMap) (o : Int) (sz : Nat) : OMap :=
   match getCell om o sz with
   | none => ⟨o, sz, false⟩ :: om
-  | some c => if revive && c.removed then ⟨o, sz, false⟩ :: eraseCell om o sz else om
+  | some c => if c.removed then ⟨o, sz, false⟩ :: eraseCell om o sz else om
+
+/-- `mk_cell` BEFORE the repair (counterexample only) -/
+def mkCellOld (om : OMap) (o : Int) (sz : Nat) : OMap :=
+  match getCell om o sz with
+  | none => ⟨o, sz, false⟩ :: om
+  | some _ => om
 
 /-- is the cell in the result of `get_overlap_cells(o, size)` -/
 def shouldKill (o : Int) (sz : Nat) (c : Cell) : Bool := c.overlap o sz && !c.hasKey o sz
@@ -63,8 +70,12 @@ def kill (smashable : Bool) (om : OMap) (o : Int) (sz : Nat) : OMap :=
   else om.filter (fun c => !shouldKill o sz c)
 
 /-- offset map after `array_store(a, size, o, _)` with a constant offset -/
-def storeConst (smashable revive : Bool) (om : OMap) (o : Int) (sz : Nat) : OMap :=
-  mkCell revive (kill smashable om o sz) o sz
+def storeConst (smashable : Bool) (om : OMap) (o : Int) (sz : Nat) : OMap :=
+  mkCell (kill smashable om o sz) o sz
+
+/-- the same with `mk_cell` before the repair (counterexample only) -/
+def storeConstOld (smashable : Bool) (om : OMap) (o : Int) (sz : Nat) : OMap :=
+  mkCellOld (kill smashable om o sz) o sz
 
 /-- offset map after a store at a symbolic index that does not smash: the cells reported by the
     oracle are killed -/
@@ -75,9 +86,9 @@ def killSymbolic (smashable : Bool) (may : Cell → Bool) (om : OMap) : OMap :=
 def live (om : OMap) : List Cell := om.filter (fun c => !c.removed)
 
 /-- stores with constant offsets, the most recent first -/
-def runStores (smashable revive : Bool) : List (Int × Nat) → OMap
+def runStores (smashable : Bool) : List (Int × Nat) → OMap
   | [] => []
-  | s :: older => storeConst smashable revive (runStores smashable revive older) s.1 s.2
+  | s :: older => storeConst smashable (runStores smashable older) s.1 s.2
 
 end Cells
 end Dom
